@@ -85,7 +85,8 @@ type Run struct {
 	Probes map[string]int64 // rare-branch probes
 	Counts map[string]int64 // misc counters (exchanges, operations...)
 
-	viol *Violation
+	viol   *Violation
+	knowns []Violation // occurrences classified as recorded findings: the run goes on
 
 	Heartbeat *atomic.Uint64 // watchdog
 
@@ -94,6 +95,7 @@ type Run struct {
 
 	// Statement-level yields (C06/C07/C12): on/off and the fraction of sites enabled per run.
 	YieldsOn           bool
+	IdlePending        []string                 // operations parked when the scheduler found nothing to do
 	Injected           map[string]time.Duration // virtual delay injected per goroutine tag (slow goroutine fault)
 	SelectsOn          bool                     // receive-only selects rewritten by simbuild are scheduler decisions
 	YieldNum, YieldDen uint64
@@ -382,6 +384,7 @@ func (r *Run) Loop(maxSteps uint64, horizon time.Duration) string {
 			idleRounds++
 			if idleRounds > 3 {
 				reason = fmt.Sprintf("idle(pending=%d)", npending)
+				r.IdlePending = r.PendingIDs()
 				break
 			}
 			d = 1000 * time.Hour
@@ -575,4 +578,26 @@ func (r *Run) InjectedFor(tag string) time.Duration {
 	r.mu.Lock()
 	defer r.mu.Unlock()
 	return r.Injected[tag]
+}
+
+// Known records an occurrence that an oracle classifies as a specific recorded
+// finding; unlike Fail it does not end the run. The orchestrator checks the
+// signature against known_findings.jsonl: if no open entry matches, it is a violation.
+func (r *Run) Known(oracle, site, format string, args ...any) {
+	r.mu.Lock()
+	for _, k := range r.knowns {
+		if k.Oracle == oracle && k.Site == site {
+			r.mu.Unlock()
+			return
+		}
+	}
+	r.knowns = append(r.knowns, Violation{Oracle: oracle, Site: site, Msg: fmt.Sprintf(format, args...)})
+	r.mu.Unlock()
+	r.Log("KNOWN %s/%s", oracle, site)
+}
+
+func (r *Run) Knowns() []Violation {
+	r.mu.Lock()
+	defer r.mu.Unlock()
+	return append([]Violation(nil), r.knowns...)
 }
